@@ -1046,6 +1046,13 @@ func (e *Engine) convert(s *State, x *ssa.Convert) Value {
 		// []byte / rune / int -> string
 		if sl, ok := from.(*types.Slice); ok {
 			_ = sl
+			// the whole of a byte slice whose content is a known string (os.ReadFile, []byte(s)): that string
+			if v[0].K == KAlloc && v[1] == Zero {
+				c := s.sel("bytesof", SStr, []*Term{v[0]})
+				if v[2] == StrLen(c) {
+					return Value{c}
+				}
+			}
 			return Value{App("bytes2str", SStr, v[0], v[1], v[2])}
 		}
 		return Value{App("rune2str", SStr, v[0])}
